@@ -21,7 +21,7 @@ GEN_UNITS = []
 COQ_TARGETS = ["Props/C08.vo", "Model/C08Inst.vo", "Model/Harness.vo"]
 THEOREM_FILES = ["Props/C08.v"]
 COQ_IMPORTS = ("From Coq Require Import List ZArith QArith Qcanon Bool.\n"
-               "From PV Require Import Base.Index Model.Repr Model.Harness Model.C08Kruskal Model.C08Inst.\n")
+               "From PV Require Import Base.Index Base.Perm Model.Repr Model.Harness Model.C08Kruskal Model.C08Inst.\n")
 RULE = ("Kruskal tensors with 1-4 modes (1-way included), mode sizes 1-4, ranks 1-4, integer factor columns with exactly "
         "representable norms (zero columns included), weights of either sign and zero; every weight_factor (None, each mode, "
         "'all'), sort on/off, both norm types, mode=; every component permutation for R<=4 (thorough; sampled in quick) and "
@@ -182,7 +182,141 @@ def gen_cases(rng, tier):
                 cases.append(Case("neg", {"w": w, "f": f}, nt(w, shape)))
                 w, f = rand_k(rng, shape, R, 1)
                 cases.append(Case("mul", {"w": w, "f": f, "c": rng.choice([-2, 0, 3, 1])}, nt(w, shape)))
+                # ---- fixsigns(): integer data, every mode count of "negative" columns occurs by chance
+                for _ in range(2):
+                    w, f = rand_k(rng, shape, R, 1, pzero=0.05)
+                    cases.append(Case("fixsigns", {"w": w, "f": f}, nt(w, shape)))
+                # ---- permute (modes)
+                orders = list(itertools.permutations(range(N)))
+                if not big and len(orders) > 3:
+                    orders = rng.sample(orders, 3)
+                for order in orders:
+                    w, f = rand_k(rng, shape, R, 1)
+                    cases.append(Case("permute", {"w": w, "f": f, "order": list(order)}, nt(w, shape) and N > 1))
+                # ---- tovec / from_vector / update
+                for incl in (True, False):
+                    w, f = rand_k(rng, shape, R, 1)
+                    cases.append(Case("vec_roundtrip", {"w": w, "f": f, "incl": incl}, nt(w, shape)))
+                w, f = rand_k(rng, shape, R, 1)
+                allmodes = [-1] + list(range(N))
+                for modes in [allmodes, sorted(rng.sample(allmodes, rng.randint(1, len(allmodes))))]:
+                    n = sum((R if k == -1 else shape[k] * R) for k in modes)
+                    data = [rng.randint(-5, 5) for _ in range(n)]
+                    cases.append(Case("update", {"w": w, "f": f, "modes": modes, "data": data}, True))
+                # ---- tolist
+                w, f = rand_k(rng, shape, R, 2)
+                wl = [x ** N if x >= 0 else -((-x) ** N) for x in w] if rng.random() < 0.8 else [1] * R
+                cases.append(Case("tolist", {"w": wl, "f": f, "mode": None}, nt(wl, shape)))
+                m = rng.randrange(N)
+                w, f = rand_k(rng, shape, R, 2)
+                cases.append(Case("tolist", {"w": w, "f": f, "mode": m}, nt(w, shape)))
+    # ---- fixsigns(other): every sign pattern of the per-mode correlations, per component (2^N patterns)
+    for shape in shapes:
+        N = len(shape)
+        if any(m == 1 for m in shape) and not big:
+            continue
+        for RA, RB in ((1, 1), (2, 2), (3, 2), (3, 3)):
+            pats = list(itertools.product([1, -1], repeat=N))
+            for pat in pats:
+                if not big and N >= 3 and RA > 1 and rng.random() < 0.5:
+                    continue
+                c_ = gen_fixsigns_other(rng, shape, RA, RB, pat)
+                if c_ is not None:
+                    cases.append(c_)
+    # ---- score: B = some components of A (rescaled, sign-flipped in pairs), so a matching exists
+    for shape in shapes:
+        N = len(shape)
+        for RA, RB in ((2, 2), (3, 2), (3, 3), (1, 1)):
+            if not big and rng.random() < 0.5:
+                continue
+            w, f = rand_k(rng, shape, RA, 2, pzero=0.0, wlo=1, whi=4)
+            if not all(w):
+                continue
+            sel = rng.sample(range(RA), RB)
+            w2 = [w[r] * rng.choice([1, 2]) for r in sel]
+            f2 = [[[row[r] for r in sel] for row in A] for A in f]
+            cases.append(Case("score", {"w": w, "f": f, "w2": w2, "f2": f2}, True))
     return cases
+
+
+def gen_fixsigns_other(rng, shape, RA, RB, pat):
+    """reference whose correlation with the receiver has sign pattern `pat` (per mode) in component 0 and random
+    patterns in the others; no zero scores"""
+    N = len(shape)
+    for _ in range(30):
+        w, f = rand_k(rng, shape, RA, 2, pzero=0.0, wlo=1, whi=3)
+        w2 = [rng.choice([1, 2, 3]) for _ in range(RB)]
+        f2 = []
+        ok = True
+        for n, m in enumerate(shape):
+            cols2 = []
+            for r in range(RB):
+                a = [f[n][i][r] for i in range(m)]
+                want = pat[n] if r == 0 else rng.choice([1, -1])
+                b = None
+                for _t in range(40):
+                    cand = list(rng.choice(sq_pool(m)))
+                    d = sum(x * y for x, y in zip(a, cand))
+                    if d != 0:
+                        b = cand if (d > 0) == (want > 0) else [-x for x in cand]
+                        break
+                if b is None:
+                    ok = False
+                    break
+                cols2.append(b)
+            if not ok:
+                break
+            f2.append([[cols2[r][i] for r in range(RB)] for i in range(m)])
+        if ok:
+            return Case("fixsigns_other", {"w": w, "f": f, "w2": w2, "f2": f2}, True)
+    return None
+
+
+def fso_scores(a):
+    """exact per-component, per-mode sign scores of fixsigns(other) after both normalisations (2-norm; the sign step of
+    normalize negates column r of factor 0 when the weight is negative)"""
+    out = []
+    RB = len(a["w2"])
+    for r in range(RB):
+        sc = []
+        for n, (A, B) in enumerate(zip(a["f"], a["f2"])):
+            ca = [row[r] for row in A]
+            cb = [row[r] for row in B]
+            na, nb = col_norm(ca, 2), col_norm(cb, 2)
+            d = Fraction(sum(x * y for x, y in zip(ca, cb)), (na or 1) * (nb or 1))
+            if n == 0 and (a["w"][r] < 0) != (a["w2"][r] < 0):
+                d = -d
+            sc.append(d)
+        out.append(sc)
+    return out
+
+
+def fso_odd(c):
+    """trigger of A-29: some component has an odd number of negative sign scores"""
+    return c.op == "fixsigns_other" and any(sum(1 for x in sc if x < 0) % 2 == 1 for sc in fso_scores(c.args))
+
+
+TRIGGERS = {"fixsigns_other_odd_negative_scores": fso_odd}
+
+
+def _witness_A29():
+    import numpy as np
+    import pyttb as ttb
+    eye = np.eye(2)
+    a = ttb.ktensor([eye.copy(), eye.copy(), eye.copy()], np.array([1.0, 1.0]))
+    b = ttb.ktensor([-eye.copy(), -eye.copy(), -eye.copy()], np.array([1.0, 1.0]))
+    before = a.full().data.copy()
+    try:
+        r = a.copy().fixsigns(b.copy())
+    except Exception as ex:
+        return f"fixsigns(other) raised {type(ex).__name__}"
+    after = r.full().data
+    if not np.allclose(before, after):
+        return "fixsigns(other) negated an odd number of factors of a component: the tensor changed"
+    return None
+
+
+WITNESSES = {"A-29": _witness_A29}
 
 
 # ----------------------------------------------------------------------------------------------------------------
@@ -222,6 +356,29 @@ def run_impl(c):
             return {"ok": tgen.obs_ktensor(np, -K)}
         if c.op == "mul":
             return {"ok": tgen.obs_ktensor(np, K * a["c"]), "r": tgen.obs_ktensor(np, a["c"] * K)}
+        if c.op == "fixsigns":
+            K.fixsigns()
+            return {"ok": tgen.obs_ktensor(np, K)}
+        if c.op == "fixsigns_other":
+            L = mk_k(ttb, np, a["w2"], a["f2"])
+            K.fixsigns(L)
+            return {"ok": tgen.obs_ktensor(np, K)}
+        if c.op == "permute":
+            return {"ok": tgen.obs_ktensor(np, K.permute(np.array(a["order"])))}
+        if c.op == "vec_roundtrip":
+            v = K.tovec(include_weights=a["incl"])
+            K2 = ttb.ktensor.from_vector(v.copy(), tuple(len(A) for A in a["f"]), a["incl"])
+            return {"ok": tgen.obs_ktensor(np, K2), "vec": [tgen.exact(x) for x in v]}
+        if c.op == "update":
+            K.update(np.array(a["modes"]), np.array(a["data"], dtype=float))
+            return {"ok": tgen.obs_ktensor(np, K)}
+        if c.op == "tolist":
+            fl = K.tolist() if a["mode"] is None else K.tolist(a["mode"])
+            return {"ok": {"weights": [1] * len(a["w"]), "factors": [tgen.obs_matrix(np, A) for A in fl]}}
+        if c.op == "score":
+            L = mk_k(ttb, np, a["w2"], a["f2"])
+            sc, A2, flag, perm = K.score(L)
+            return {"ok": tgen.obs_ktensor(np, A2), "perm": [int(x) for x in perm], "score": float(sc)}
     except Exception as ex:
         return {"exc": type(ex).__name__, "msg": str(ex)[:200]}
     raise ValueError(c.op)
@@ -300,10 +457,50 @@ def coq_check(c, o):
             nf.append("q_desc (kweights O) && qk_unit_cols 2 O" if a["wf"] is None else "q_all_one (kweights O)")
         return (f"let K := {K} in let O := {O} in {agree} && qk_den_close {shp} K O"
                 + "".join(" && " + x for x in nf))
+    if c.op == "fixsigns_other":
+        K = gqk(a["w"], a["f"])
+        L = gqk(a["w2"], a["f2"])
+        O = gqk(ob["weights"], ob["factors"])
+        ties = any(len(set(abs(x) for x in sc)) < len(sc) or any(x == 0 for x in sc) for sc in fso_scores(a))
+        agree = "true" if ties else "qk_close (qk_fixsigns_other K L) O"
+        return f"let K := {K} in let L := {L} in let O := {O} in {agree} && qk_den_close {shp} K O"
+    if c.op == "tolist":
+        K = gqk(a["w"], a["f"])
+        F = gqmats(ob["factors"])
+        model = "qk_tolist K" if a["mode"] is None else f"qk_tolist_mode {int(a['mode'])} K"
+        return (f"let K := {K} in let F := {F} in qmats_close ({model}) F && "
+                f"qk_den_close {shp} K (qk_ones_k F {len(a['w'])})")
+    if c.op == "score":
+        K = gqk(a["w"], a["f"])
+        O = gqk(ob["weights"], ob["factors"])
+        p = o["perm"]
+        if sorted(p) != list(range(len(a["w"]))):
+            return "false"
+        return (f"let K := {K} in let O := {O} in qk_close (qk_gather {gnlist(p)} (qk_normalize 2 WNone false None K)) O && "
+                f"qk_den_close {shp} K O")
     if not all_int_k(ob):
         return "false"
     K = gzk(a["w"], a["f"])
     O = gzk(ob["weights"], ob["factors"])
+    if c.op == "fixsigns":
+        return f"let K := {K} in let O := {O} in zk_eqb (zk_fixsigns K) O && zk_den_eqb {shp} K O"
+    if c.op == "permute":
+        shp2 = gnlist([shape_of(a["f"])[k] for k in a["order"]])
+        od = gnlist(a["order"])
+        return (f"let K := {K} in let O := {O} in zk_eqb (zk_permute {od} K) O && nvec_eqb (kshape O) {shp2} && "
+                f"forall_idx {shp2} (fun i => Z.eqb (zden_k O i) (zden_k K (pick 0%nat (invperm {od}) i)))")
+    if c.op == "vec_roundtrip":
+        if not tgen.all_int(o["vec"]):
+            return "false"
+        incl = "true" if a["incl"] else "false"
+        back = "zk_eqb O K" if a["incl"] else f"zk_eqb O (mkK {gzlist([1] * len(a['w']))} (kfactors K))"
+        return (f"let K := {K} in let O := {O} in vec_eqb (zk_tovec {incl} K) {gzlist(o['vec'])} && "
+                f"zk_eqb (zk_from_vector {gzlist(o['vec'])} {shp} {incl}) O && {back}")
+    if c.op == "update":
+        ms = "[" + "; ".join("None" if k == -1 else f"Some {k}%nat" for k in a["modes"]) + "]"
+        full = len(a["modes"]) == len(a["f"]) + 1
+        extra = f" && zk_eqb O (zk_from_vector {gzlist(a['data'])} {shp} true)" if full else ""
+        return f"let K := {K} in let O := {O} in zk_eqb (zk_update {ms} {gzlist(a['data'])} K) O{extra}"
     if c.op == "arrange_perm":
         return f"let K := {K} in let O := {O} in zk_eqb (zk_gather {gnlist(a['p'])} K) O && zk_den_eqb {shp} K O"
     if c.op == "extract":
@@ -353,6 +550,20 @@ def oracle(c, o):
     if not finite(ob):
         return "non-finite value in the result"
     shape = shape_of(a["f"])
+    if c.op == "update":
+        return None
+    if c.op == "permute":
+        shape2 = [shape[k] for k in a["order"]]
+        for i in tgen.all_subs(shape2):
+            j = [0] * len(shape)
+            for k, m in enumerate(a["order"]):
+                j[m] = i[k]
+            if den(ob["weights"], ob["factors"], i) != den(a["w"], a["f"], j):
+                return f"permuted tensor differs at {i}"
+        return None
+    if c.op == "vec_roundtrip":
+        want_w = a["w"] if a["incl"] else [1] * len(a["w"])
+        return None if (ob["weights"] == want_w and ob["factors"] == a["f"]) else "from_vector(tovec(K)) differs from K"
     if shape_of(ob["factors"]) != shape:
         return f"shape changed: {shape_of(ob['factors'])}"
     for i in tgen.all_subs(shape):
